@@ -185,7 +185,7 @@ class VerifyAttrs(object):
                 raise RuntimeError("Bad value for intent: " + attrs["intent"])
             if not is_ptr and intent != "in":
                 # Nonpointers can only be intent(in).
-                raise RuntimeError("{}: Only pointer arguments may have intent attribute".format(node.linenumber))
+                raise RuntimeError("{}: Only pointer arguments may have intent attribute".format(getattr(node, "linenumber", "?")))
         meta["intent"] = intent
         return intent    
         
@@ -359,7 +359,7 @@ class VerifyAttrs(object):
             ]:
                 raise RuntimeError(
                     "Illegal attribute '{}' for argument '{}' defined at line {}".format(
-                        attr, argname, node.linenumber
+                        attr, argname, getattr(node, "linenumber", "?")
                     )
                 )
 
@@ -368,7 +368,7 @@ class VerifyAttrs(object):
             # Sanity check to make sure arg_typemap exists
             raise RuntimeError(
                 "check_arg_attrs: Missing arg.typemap on line {}: {}".format(
-                    node.linenumber, node.decl
+                    getattr(node, "linenumber", "?"), getattr(node, "decl", argname)
                 )
             )
 
@@ -440,7 +440,7 @@ class VerifyAttrs(object):
             if not temp:
                 raise RuntimeError(
                     "line {}: std::vector must have template argument: {}".format(
-                        node.linenumber, arg.gen_decl()
+                        getattr(node, "linenumber", "?"), arg.gen_decl()
                     )
                 )
             arg_typemap = arg.template_arguments[0].typemap
@@ -458,7 +458,7 @@ class VerifyAttrs(object):
         self.parse_attrs(node, arg)
 
         # Flag node if any argument is assumed-rank.
-        if arg.metaattrs["assumed-rank"]:
+        if node and arg.metaattrs["assumed-rank"]:
             node._gen_fortran_generic = True
 
         if arg.is_function_pointer():
@@ -485,7 +485,7 @@ class VerifyAttrs(object):
                 declast.check_dimension(dim, metaattrs)
             except RuntimeError:
                 raise RuntimeError("Unable to parse dimension: {} at line {}"
-                                   .format(dim, node.linenumber))
+                                   .format(dim, getattr(node, "linenumber", "?")))
 
 
 class GenFunctions(object):
